@@ -162,6 +162,7 @@ FMSTRUCT = {"k": "fmstruct"}  # a typed map of two structs {file f; int n}
 FASTRUCT = {"k": "fastruct"}  # an array of two such structs
 FDIR = {"k": "dir"}
 FILES11 = {"k": "files11"}   # an array of eleven files (two-digit names under outs/)
+FSHARDS = {"k": "fshards"}   # an array of two files the stage wrote as <out>_parts/0 and <out>_parts/2
 FMISSING = {"k": "fmissing"}  # names a file the stage never wrote
 FLINK = {"k": "flink"}
 FPLINK = {"k": "fplink"}     # a relative symbolic link to the first file named in the arguments (pass-through)
